@@ -164,5 +164,15 @@ func responseSample(code byte) []byte {
 			return registry[i].sample
 		}
 	}
+	if len(reflectedOps) > 0 {
+		// an operation found by reflection: no hand-written sample - a well-formed header, payload of ones
+		b := make([]byte, 64)
+		b[0], b[1] = 0x17, code
+		copy(b[4:8], serialLE)
+		for k := 8; k < 64; k++ {
+			b[k] = 1
+		}
+		return b
+	}
 	return nil
 }
